@@ -68,6 +68,40 @@ def fam_muxtree(rng, depth):
         cur = new
     return ('muxtree', nxt, prog)
 
+def account(ctx, stats, job, o, m, backend, build, lam):
+    (name, nw, prog, mode, ins, line) = job
+    ctx.count((backend, build, lam, line[40:4000]))
+    if o.startswith('CRASH'):
+        ctx.report('netlist-crash', '%s/%s %d-bit: evaluation of a %s netlist died: %s' % (backend, build, lam, name, o[:80]), {'case': line, 'backend': backend, 'build': build}); return
+    r = ints(o); phases = r[:len(prog)]; fin = r[len(prog):]
+    bits = list(ins); depth = [0] * nw
+    for (kind, d, a, b, c), ph in zip(prog, phases):
+        nb = plain(kind, bits, a, b, c)
+        srcs = {10: [a], 11: [a], 12: [], 13: [a, b, c]}.get(kind, [a, b])
+        din = max([depth[x] for x in srcs], default=0)
+        err = vlib.w32(ph - (MU if nb else -MU))
+        if (ph > 0) != bool(nb):
+            ctx.report('wire-wrong', '%s/%s %d-bit set, %s netlist: after instruction %s the destination decrypts to %d, plaintext evaluation gives %d (phase %d, inputs at depth %d)' % (
+                backend, build, lam, name, (kind, d, a, b, c), 1 if ph > 0 else 0, nb, ph, din), {'case': line, 'instruction': [kind, d, a, b, c], 'backend': backend, 'build': build})
+        if kind < 10 or kind == 13:
+            cat = ('noisy' if mode == 1 else 'fresh') if din == 0 else ('deep' if din >= 5 else 'mid')
+            for key in ((kind == 13, cat), (kind == 13, 'all')):
+                st = stats.setdefault(key, [0, 0.0, 0.0, 0]); e = err / T32
+                st[0] += 1; st[1] += e; st[2] += e * e; st[3] = max(st[3], abs(err))
+            if abs(err) >= 3 * 2**26:
+                ctx.report('error-magnitude', '%s/%s %d-bit set: phase error %d (>= 3/64) at a %s output (inputs at depth %d)' % (backend, build, lam, err, 'MUX' if kind == 13 else GATES[kind], din),
+                           {'case': line, 'instruction': [kind, d, a, b, c], 'error_units': err, 'backend': backend, 'build': build})
+            depth[d] = din + 1
+        else: depth[d] = din
+        bits[d] = nb
+    if fin != bits: ctx.report('final-wires', 'final decrypted wires differ from the plaintext evaluation', {'case': line, 'impl': fin, 'plain': bits})
+    if m is not None and fmt(bits) != m.strip(): ctx.soft('correspondence:netlist', 'extracted eval_plain differs from the harness interpreter', {'case': line[:3000]})
+
+def mkjob(rng, spec, net, mode):
+    (name, nw, prog) = net
+    ins = [rng.randrange(2) for _ in range(nw)]
+    return (name, nw, prog, mode, ins, 'netlist %s %d %d %d %s %s' % (spec, mode, nw, len(prog), ' '.join('%d %d %d %d %d' % p for p in prog), fmt(ins)))
+
 def run(ctx):
     thorough = ctx.tier == 'thorough'
     rng = ctx.rng
@@ -104,37 +138,27 @@ def run(ctx):
                     outs = list(ex.map(lambda j: vlib.run_lines(exe, [j[5]], timeout=7200)[0], jobs))
                 mlines = ['netlist %d %d %s %s' % (j[1], len(j[2]), ' '.join('%d %d %d %d %d' % p for p in j[2]), fmt(j[4])) for j in jobs]
                 mo = vlib.run_model(mlines, 'pure', timeout=1800)
-                for (name, nw, prog, mode, ins, line), o, m in zip(jobs, outs, mo):
-                    ctx.count((backend, build, lam, line[40:4000]))
-                    if o.startswith('CRASH'):
-                        ctx.report('netlist-crash', '%s/%s %d-bit: evaluation of a %s netlist died: %s' % (backend, build, lam, name, o[:80]), {'case': line, 'backend': backend, 'build': build}); continue
-                    r = ints(o); phases = r[:len(prog)]; fin = r[len(prog):]
-                    bits = list(ins); depth = [0] * nw
-                    for (kind, d, a, b, c), ph in zip(prog, phases):
-                        nb = plain(kind, bits, a, b, c)
-                        srcs = {10: [a], 11: [a], 12: [], 13: [a, b, c]}.get(kind, [a, b])
-                        din = max([depth[x] for x in srcs], default=0)
-                        err = vlib.w32(ph - (MU if nb else -MU))
-                        if (ph > 0) != bool(nb):
-                            ctx.report('wire-wrong', '%s/%s %d-bit set, %s netlist: after instruction %s the destination decrypts to %d, plaintext evaluation gives %d (phase %d, inputs at depth %d)' % (
-                                backend, build, lam, name, (kind, d, a, b, c), 1 if ph > 0 else 0, nb, ph, din), {'case': line, 'instruction': [kind, d, a, b, c], 'backend': backend, 'build': build})
-                        if kind < 10 or kind == 13:
-                            cat = ('noisy' if mode == 1 else 'fresh') if din == 0 else ('deep' if din >= 5 else 'mid')
-                            for key in ((kind == 13, cat), (kind == 13, 'all')):
-                                st = stats.setdefault(key, [0, 0.0, 0.0, 0]); e = err / T32
-                                st[0] += 1; st[1] += e; st[2] += e * e; st[3] = max(st[3], abs(err))
-                            if abs(err) >= 3 * 2**26:
-                                ctx.report('error-magnitude', '%s/%s %d-bit set: phase error %d (>= 3/64) at a %s output (inputs at depth %d)' % (backend, build, lam, err, 'MUX' if kind == 13 else GATES[kind], din),
-                                           {'case': line, 'instruction': [kind, d, a, b, c], 'error_units': err, 'backend': backend, 'build': build})
-                            depth[d] = din + 1
-                        else: depth[d] = din
-                        bits[d] = nb
-                    if fin != bits: ctx.report('final-wires', 'final decrypted wires differ from the plaintext evaluation', {'case': line, 'impl': fin, 'plain': bits})
-                    if fmt(bits) != m.strip(): ctx.soft('correspondence:netlist', 'extracted eval_plain differs from the harness interpreter', {'case': mlines[0][:3000]})
+                for job, o, m in zip(jobs, outs, mo): account(ctx, stats, job, o, m, backend, build, lam)
                 # decide
                 undecided = judge(ctx, stats, lam, backend, build, final=(bi == len(budget) - 1))
                 if not undecided: break
             ctx.hypotheses['%s/%s %d-bit' % (backend, build, lam)] = summary(stats)
+        # history: a second key set generated and used in a process that has already generated and used another one (state kept by the
+        # library between key sets, e.g. in the noise samplers, must not change the noise of the second)
+        def hist(order):
+            (la, lb) = order
+            sa = fmt([la, 0, 0, 0, 0, 0, 0, 0, 0, ctx.seed * 10 + 6]); sb = fmt([lb, 0, 0, 0, 0, 0, 0, 0, 0, ctx.seed * 10 + 7])
+            r2 = vlib.random.Random(ctx.seed * 31 + la)
+            ja = [mkjob(r2, sa, fam_layer(r2, 10), 0)]
+            jb = [mkjob(r2, sb, fam_layer(r2, 60), i % 2) for i in range(4 if not thorough else 12)] + [mkjob(r2, sb, fam_chain(r2, 200), 0)]
+            outs = vlib.run_lines(exe, [j[5] for j in ja + jb], timeout=7200)
+            return (lb, jb, outs[len(ja):])
+        with ThreadPoolExecutor(max_workers=2) as ex: hres = list(ex.map(hist, [(128, 80), (80, 128)]))
+        for (lb, jb, outs) in hres:
+            hstats = {}
+            for job, o in zip(jb, outs): account(ctx, hstats, job, o, None, backend, build, lb)
+            judge(ctx, hstats, lb, backend + ' (second key set of the process)', build, final=True)
+            ctx.hypotheses['%s/%s %d-bit as second key set of the process' % (backend, build, lb)] = summary(hstats)
     ctx.sample({'statistics': {k: v for k, v in list(ctx.hypotheses.items())[:2]}})
 
 def mom(st):
